@@ -177,6 +177,41 @@ pub fn resolve_element(
     }
 }
 
+/// As `resolve_element`, also returning the name of the resulting element
+/// (a connector is replaced by a `line` or a `polyline`).
+pub fn connect_element(
+    name: &str,
+    attrs: &[(String, String)],
+    others: &[(String, Vec<(String, String)>)],
+) -> Result<(String, Vec<(String, String)>), &'static str> {
+    let mut ctx = TransformerContext::new();
+    for (oname, oattrs) in others {
+        let el = SvgElement::new(oname, oattrs);
+        ctx.update_element(&el);
+        if el.bbox().ok().flatten().is_some() {
+            ctx.set_prev_element(&el);
+        }
+    }
+    let mut e = SvgElement::new(name, attrs);
+    let r = (|| {
+        e.resolve_position(&ctx)?;
+        e.transmute(&ctx)?;
+        e.resolve_position(&ctx)?;
+        ctx.get_element_bbox(&e)?;
+        Ok(())
+    })();
+    match r {
+        Ok(()) => {
+            let mut out = e.attrs.to_vec();
+            if !e.classes.is_empty() {
+                out.push(("class".to_owned(), e.get_classes().join(" ")));
+            }
+            Ok((e.name.clone(), out))
+        }
+        Err(err) => Err(errkind(&err)),
+    }
+}
+
 /// Direct call of the theme builder.
 #[allow(clippy::too_many_arguments)]
 pub fn theme_build(
